@@ -31,7 +31,7 @@ ASSUMPTIONS = ['rules whose external node list repeats a node are excluded (iden
 
 def plan(prop, tier):
     if tier == 'quick':
-        return {'runs': 4000, 'cap': 30.0, 'det_runs': 40}
+        return {'runs': 4000, 'cap': 30.0, 'det_runs': 40, 'legs': [{'hashseed': h} for h in (0, 1, 2, 3)]}
     return {'cap': 60.0, 'budget_s': 900, 'legs': [{'hashseed': h} for h in (0, 1, 2, 3)]}
 
 
